@@ -43,6 +43,7 @@
 #include <stddef.h>
 #include <stdbool.h>
 #include <string.h>
+#include <limits.h>
 #include <stdio.h>
 #include <time.h>
 #include <fcntl.h>
@@ -490,7 +491,7 @@ snarf_rrule(const char *s, size_t z)
 
 		case KEY_COUNT:
 		case KEY_INTER:
-			if (!(tmp = atol(++kv))) {
+			if ((tmp = atol(++kv)) <= 0 || tmp > INT_MAX) {
 				goto bogus;
 			}
 			switch (c->key) {
